@@ -493,6 +493,8 @@ VARIANTS = [
          old="for (x, w) in window.iter().enumerate().take(totpoints) {", new="for (x, w) in window.iter().enumerate().skip(totpoints) {"),
     dict(property="C16", name="partial-skips-one-frame-input", file=LIB, expect="prefix-copy",
          old="                if frames_in > 0 {", new="                if frames_in > 1 {"),
+    dict(property="C07", name="fft-out-exact-chunk-not-delivered", file=SYN, expect="deliver-condition",
+         old="        if processed_frames >= self.chunk_size_out {", new="        if processed_frames > self.chunk_size_out {"),
 ]
 
 
